@@ -103,6 +103,8 @@ class HH2Case:
                                              initial_mesh=fac,
                                              quad_int=self.cfg['quad_int'])
         self.g = g_linform_of(self.cfg.get('g'))
+        self._est = {}
+        self._lists = {}
         self.memo = {}
         self.memo_m0 = {}
         self.coarse = canon_leaves(mesh)
@@ -168,7 +170,7 @@ class HH2Case:
         if op.get('density') == 'galerkin':
             A = self.ref_matrix(self.coarse2, self.coarse2)
             return np.linalg.solve(A, self.ref_data(self.coarse2, 1))
-        rng = np.random.default_rng(op.get('seed', 0))
+        rng = np.random.default_rng(op.get('density_seed', op.get('seed', 0)))
         return rng.uniform(-1, 1, n)
 
     def call(self, site, op, fn):
@@ -209,12 +211,31 @@ class HH2Case:
         self.log.append(('refine', len(self.coarse)))
 
     def elems_in_order(self, op):
+        # with 'reuse' the client keeps its list objects (and, below, its
+        # estimator objects) from one call to the next
+        key = (op.get('order'),
+               op.get('seed') if op.get('order') == 'perm' else None)
+        if self.run.get('reuse') and key in self._lists:
+            self.cov.inc('probe.same_list_object_again')
+            return self._lists[key]
         if op.get('order') == 'impl':
-            return list(self.case.mesh.leaf_elements)
-        elems = list(self.coarse)
-        if op.get('order') == 'perm':
-            stream(op.get('seed', 0), 'perm').shuffle(elems)
+            elems = list(self.case.mesh.leaf_elements)
+        else:
+            elems = list(self.coarse)
+            if op.get('order') == 'perm':
+                stream(op.get('seed', 0), 'perm').shuffle(elems)
+        if self.run.get('reuse'):
+            self._lists[key] = elems
         return elems
+
+    def estimator(self, key, make):
+        if not self.run.get('reuse') or key is None:
+            return make()
+        if key in self._est:
+            self.cov.inc('probe.same_estimator_object_again')
+        else:
+            self._est[key] = make()
+        return self._est[key]
 
     def op_hh2(self, op):
         HH = repo.mod('src.h_h2_error_estimator')
@@ -249,7 +270,10 @@ class HH2Case:
         scale = float(np.sqrt(P @ A2 @ P))
         vals = {}
         for use_mp in ((False, True) if op.get('use_mp') else (False, )):
-            est = HH.HH2ErrorEstimator(SL=self.SL, M0=M0, g=g, use_mp=use_mp)
+            est = self.estimator(
+                None if planted else ('hh2', use_mp),
+                lambda: HH.HH2ErrorEstimator(SL=self.SL, M0=M0, g=g,
+                                             use_mp=use_mp))
             v = self.call('hh2/' + ('pool' if use_mp else 'serial'), op,
                           lambda: est.estimate(elems, Phi))
             self.cov.inc('path.' + ('pool' if use_mp else 'serial'))
@@ -282,7 +306,9 @@ class HH2Case:
         pos = {id(e): i for i, e in enumerate(self.coarse)}
         Phi_c = self.density(op)
         Phi = np.array([Phi_c[pos[id(e)]] for e in elems])
-        est = HE.HierarchicalErrorEstimator(SL=self.SL, M0=self.M0, g=self.g)
+        est = self.estimator(
+            ('hier', ), lambda: HE.HierarchicalErrorEstimator(
+                SL=self.SL, M0=self.M0, g=self.g))
         got = self.call('hierarchical', op, lambda: est.estimate(elems, Phi))
         self.cov.inc('path.pool')
         if not isinstance(got, np.ndarray) or got.shape != (len(elems), 2):
@@ -435,6 +461,28 @@ def gen_run(seed, params):
     run = {'curve': curve, 'history': hist, 'cfg': cfg, 'ops': ops}
     if time is not None:
         run['time'] = time
+    # call histories on one estimator object (own stream: the runs without
+    # this feature stay what they were): estimator and list objects are kept
+    # between calls, the densities change
+    hrng = stream(seed, 'workload-hist')
+    if hrng.random() < params.get('p_reuse', 0.35):
+        run['reuse'] = True
+        kinds = [o['op'] for o in ops if o['op'] in ('hh2', 'hier')]
+        kind = hrng.choice(kinds) if kinds else hrng.choice(['hh2', 'hier'])
+        first = next((o for o in ops if o['op'] == kind), None)
+        for _ in range(hrng.randint(1, 2)):
+            extra = {
+                'workers': hrng.randint(1, 16),
+                'sched_seed': hrng.randrange(1 << 30),
+                'seed': first['seed'] if first else hrng.randrange(1 << 30),
+                'density': hrng.choice(['random', 'galerkin']),
+                'order': first['order'] if first else 'canon',
+                'op': kind
+            }
+            if kind == 'hh2':
+                extra['use_mp'] = hrng.random() < 0.7
+            extra['density_seed'] = hrng.randrange(1 << 30)
+            ops.append(extra)
     return run
 
 
